@@ -333,3 +333,180 @@ def levy_search(rng, n, tol=1e-9):
         if len(fails) >= 2:
             break
     return fails, evals
+
+
+# ---------------------------------------------------------------------------------------------------------------
+# C05 / C06 / C07 on the real objects (real RNG)
+# ---------------------------------------------------------------------------------------------------------------
+
+def _eq(a, b):
+    return all((x is None and y is None) or (x is not None and y is not None and torch.equal(x, y)) for x, y in zip(a, b))
+
+
+def requery_search(rng, n_cfg, n_hist):
+    """C05: the same interval asked again later returns the same bits, whatever happened in between."""
+    fails, st = [], dict(configs=0, requeries=0, queries=0, inferred_dt=0)
+    for _ in range(n_cfg):
+        cfg = random_config(rng, allow_cache0=True)
+        if rng.random() < 0.4:
+            cfg.update(dt=None, halfway=False, tol=0.0)  # dt inferred mid-history (needs > 100 queries)
+        try:
+            bm = build(cfg)
+            hist = random_history(rng, cfg, max(n_hist, 140 if cfg['dt'] is None and not cfg['halfway'] else n_hist))
+            seen = {}
+            bad = None
+            for k, (a, b) in enumerate(hist):
+                ans = query(bm, a, b, cfg)
+                st['queries'] += 1
+                if (a, b) in seen:
+                    st['requeries'] += 1
+                    if not _eq(ans, seen[(a, b)][1]):
+                        bad = dict(kind='requery', config=_ser(cfg), history=hist[:k + 1], first_asked_at=seen[(a, b)][0],
+                                   interval=[a, b])
+                        break
+                else:
+                    seen[(a, b)] = (k, ans)
+                if rng.random() < 0.25 and seen:
+                    q = rng.choice(list(seen))
+                    st['requeries'] += 1
+                    if not _eq(query(bm, q[0], q[1], cfg), seen[q][1]):
+                        bad = dict(kind='requery', config=_ser(cfg), history=hist[:k + 1] + [q], first_asked_at=seen[q][0],
+                                   interval=list(q))
+                        break
+            st['configs'] += 1
+            st['inferred_dt'] += int(cfg['dt'] is None and not cfg['halfway'])
+            if bad:
+                fails.append(bad)
+        except RecursionError:
+            st['recursion_errors'] = st.get('recursion_errors', 0) + 1
+        if len(fails) >= 2:
+            break
+    return fails, st
+
+
+def reproducibility_search(rng, n_cfg, n_hist):
+    """C06: same entropy + same sequence => same bits; halfway_tree: history independence; BrownianTree likewise."""
+    fails, st = [], dict(configs=0, same_seq=0, dyadic_pairs=0, entropy_pairs=0)
+    for _ in range(n_cfg):
+        cfg = random_config(rng, allow_cache0=True)
+        hist = random_history(rng, cfg, n_hist)
+        b1, b2 = build(cfg), build(cfg)
+        torch.manual_seed(rng.randrange(1000))
+        r1 = [query(b1, a, b, cfg) for a, b in hist]
+        torch.manual_seed(rng.randrange(1000))  # global RNG state must be irrelevant
+        r2 = [query(b2, a, b, cfg) for a, b in hist]
+        st['configs'] += 1
+        st['same_seq'] += len(hist)
+        if not all(_eq(x, y) for x, y in zip(r1, r2)):
+            fails.append(dict(kind='same-entropy-same-sequence', config=_ser(cfg), history=hist))
+        # different entropy => different path
+        cfg3 = dict(cfg, entropy=cfg['entropy'] + 1)
+        b3 = build(cfg3)
+        t0, t1 = cfg['t0'], cfg['t0'] + cfg['span']
+        st['entropy_pairs'] += 1
+        if _eq(query(b3, t0, t1, cfg), query(build(cfg), t0, t1, cfg)):
+            fails.append(dict(kind='entropy-ignored', config=_ser(cfg)))
+        # dyadic mode: the answer does not depend on the history
+        hcfg = dict(cfg, halfway=True, tol=rng.choice([1e-3, 1e-4, 1e-5]), dt=None)
+        h1 = random_history(rng, hcfg, n_hist)
+        h2 = random_history(rng, hcfg, rng.randrange(0, n_hist))
+        q = (random_time(rng, hcfg), random_time(rng, hcfg))
+        q = (min(q), max(q))
+        c1, c2 = build(hcfg), build(hcfg)
+        for a, b in h1:
+            query(c1, a, b, hcfg)
+        for a, b in h2:
+            query(c2, a, b, hcfg)
+        st['dyadic_pairs'] += 1
+        if not _eq(query(c1, q[0], q[1], hcfg), query(c2, q[0], q[1], hcfg)):
+            fails.append(dict(kind='dyadic-history-dependence', config=_ser(hcfg), history1=h1, history2=h2, query=list(q)))
+        # BrownianTree wrapper
+        w0 = torch.zeros(2, 3, dtype=torch.float64)
+        ent = rng.randrange(1 << 30)
+        tr1 = BrownianTree(t0=0.0, w0=w0, t1=1.0, entropy=ent, tol=1e-4)
+        tr2 = BrownianTree(t0=0.0, w0=w0, t1=1.0, entropy=ent, tol=1e-4)
+        for _ in range(rng.randrange(0, 12)):
+            a, b = sorted((round(rng.random(), 4), round(rng.random(), 4)))
+            tr1(a, b)
+        a, b = sorted((round(rng.random(), 4), round(rng.random(), 4)))
+        st['dyadic_pairs'] += 1
+        if not torch.equal(tr1(a, b), tr2(a, b)):
+            fails.append(dict(kind='BrownianTree-history-dependence', entropy=ent, query=[a, b]))
+        if len(fails) >= 2:
+            break
+    return fails, st
+
+
+def robustness_search(rng, n_cfg, n_long):
+    """C07: no crash, cache bound, for solver-shaped and adversarial histories."""
+    import sys
+    fails, st = [], dict(configs=0, queries=0, max_cache=0, long_runs=0, max_py_depth=0)
+
+    def run(cfg, hist, what, depth=False):
+        maxd = [0]
+
+        def prof(frame, event, arg):
+            if event == 'call':
+                d, f = 0, frame
+                while f:
+                    d += 1
+                    f = f.f_back
+                maxd[0] = max(maxd[0], d)
+        try:
+            bm = build(cfg)
+            if depth:
+                sys.setprofile(prof)
+            for a, b in hist:
+                query(bm, a, b, cfg)
+            sys.setprofile(None)
+            c = bm._increment_and_space_time_levy_area_cache
+            n = len(c) if hasattr(c, '__len__') else 0
+            st['max_cache'] = max(st['max_cache'], n)
+            st['max_py_depth'] = max(st['max_py_depth'], maxd[0])
+            if cfg['cache_size'] is not None and n > cfg['cache_size']:
+                return dict(kind='cache-bound', config=_ser(cfg), what=what, cached=n)
+            if depth and maxd[0] > 120:
+                return dict(kind='python-stack-grows', config=_ser(cfg), what=what, depth=maxd[0], queries=len(hist))
+        except BaseException as e:  # noqa: any exception on valid input is a violation
+            sys.setprofile(None)
+            return dict(kind='exception', config=_ser(cfg), what=what, error=f"{type(e).__name__}: {str(e)[:100]}",
+                        queries=len(hist))
+        finally:
+            st['queries'] += len(hist)
+        return None
+
+    for _ in range(n_cfg):
+        cfg = random_config(rng, allow_cache0=True)
+        t0, t1 = cfg['t0'], cfg['t0'] + cfg['span']
+        hist = random_history(rng, cfg, 150)
+        adversarial = []
+        for _ in range(30):
+            a = rng.uniform(t0, t1)
+            adversarial.append((a, min(t1, a + rng.choice([1e-9, 1e-12, 1e-15, 3e-17]))))
+        adversarial += [(t1 - 4e-14, t1), (t0, t0 + 1e-13), (t0, t0), (t1, t1)]
+        r = run(cfg, hist + adversarial, 'random+adversarial', depth=True)
+        st['configs'] += 1
+        if r:
+            fails.append(r)
+    # constructor corner cases
+    for kw in [dict(tol=1e-3, dt=1e-5), dict(tol=1e-2, dt=1e-3, cache_size=3), dict(cache_size=0, dt=0.1), dict(cache_size=0),
+               dict(cache_size=1), dict(halfway=True, tol=1e-3, dt=None), dict(halfway=True, tol=1e-6, dt=None)]:
+        cfg = dict(t0=0.0, span=1.0, size=(2,), levy='space-time', entropy=7, cache_size=45, dt=None, tol=0.0, halfway=False)
+        cfg.update(kw)
+        n = 300
+        hist = [(i / n, (i + 1) / n) for i in range(n)]
+        r = run(cfg, hist + list(reversed(hist)), f'constructor corner {kw}', depth=True)
+        st['configs'] += 1
+        if r:
+            fails.append(r)
+    # long solver-shaped histories (forward then backward)
+    for n in n_long:
+        for kw in [dict(), dict(cache_size=None), dict(cache_size=0), dict(dt=1.0 / n)]:
+            cfg = dict(t0=0.0, span=1.0, size=(1,), levy='none', entropy=3, cache_size=45, dt=None, tol=0.0, halfway=False)
+            cfg.update(kw)
+            hist = [(i / n, (i + 1) / n) for i in range(n)]
+            r = run(cfg, hist + list(reversed(hist)), f'forward+backward sweep n={n} {kw}')
+            st['long_runs'] += 1
+            if r:
+                fails.append(r)
+    return fails[:3], st
